@@ -106,6 +106,35 @@ pub fn run(out: &mut Out, seed: u64, tier: &str) {
             }
         }
     }
+    // a second build on the same object after the bond table was replaced (ethanol rebuilt as dimethyl ether): one bond of the first
+    // table dropped, another pair joined instead — the second result must carry the second table and nothing of the first
+    let mut n_rebuilt = 0usize;
+    for (m, bonds) in graphs(&mut rng, tier) {
+        let nat = m.n();
+        if nat < 4 || nat > 14 || bonds.len() < 3 { continue; }
+        if tier != "thorough" && n_rebuilt >= 6 { break; }
+        let syms = m.symbols();
+        let refs: Vec<&str> = syms.iter().map(|x| x.as_str()).collect();
+        let table = |bs: &[(usize, usize, f64)]| { let mut mat = vec![0.0; nat * nat]; for (i, j, o) in bs { mat[i * nat + j] = *o; mat[j * nat + i] = *o; } mat };
+        // second table: drop one bond, join one unbonded pair
+        let mut second: Vec<(usize, usize, f64)> = bonds.clone();
+        let dropped = second.remove(rng.below(second.len()));
+        let mut added = None;
+        for _ in 0..50 { let (a, b) = (rng.below(nat), rng.below(nat)); if a != b && !bonds.iter().any(|(i, j, _)| (*i == a && *j == b) || (*i == b && *j == a)) { added = Some((a.min(b), a.max(b), 1.0)); break; } }
+        if let Some(x) = added { second.push(x); }
+        let mut w = Wrapper::from_atomic_symbols(&refs);
+        if panic_kind(|| { w.set_bond_orders(table(&bonds)); w.build_3d(); w.set_bond_orders(table(&second)); }).is_some() { continue; }
+        let before = connectivity(w.molecule());
+        if panic_kind(|| w.build_3d()).is_some() { continue; }
+        let after = connectivity(w.molecule());
+        n_rebuilt += 1;
+        let bonds_only = |c: &Conn| canon_conn(&Conn { bonds: c.bonds.clone(), ..Default::default() });
+        if bonds_only(&before) != bonds_only(&after) || canon_conn(&before) != canon_conn(&after) {
+            out.oracle_fail(&format!("a second build_3d after the bond table was replaced changed the bonds: {} -> {}", bonds_only(&before), bonds_only(&after)),
+                            &format!("build_3d of {} with bonds {}, then set_bond_orders to {} (dropped {:?}, joined {:?}), then build_3d again", m.name, bonds_text(&bonds), bonds_text(&second), dropped, added));
+        }
+    }
+    out.stat("second_builds_after_a_table_change", n_rebuilt);
     out.stat("builds", n);
     out.stat("geometrically_bad", geom_bad);
     out.stat("worst_bond_length_deviation", format!("{:.3}", worst_ratio));
